@@ -70,16 +70,26 @@ fn alg_name(a: &Alg) -> String {
 }
 
 fn add_case(cx: &mut Ctx, family: &str, w: &World, q: &Query, extra: serde_json::Value) {
-    let id = cx.st.next_id();
     let o = if cx.hangs >= 6 { Outcome::status_only("Hang") } else { run_query_watchdog(w, q, WATCHDOG_MS) };
     if o.status == "Hang" {
         cx.hangs += 1;
     }
+    emit_case(cx, family, w, q, o, extra, None);
+}
+
+/// one case of the stream from an outcome obtained elsewhere; `seq`: the case is element `index` of a sequence of
+/// searches run on one thread (the whole sequence is stored so that a replay re-runs it)
+fn emit_case(cx: &mut Ctx, family: &str, w: &World, q: &Query, o: Outcome, extra: serde_json::Value, seq: Option<Value>) {
+    let id = cx.st.next_id();
     let text = summary(q, &o);
     let terms = vec![term_m5(id, w, q), term_s5(id, w, q, &o, &text)];
     let line = format!("I {} {}", id, text);
-    let desc = json!({"id": id, "family": family, "world": world_to_json(w), "query": query_to_json(q), "extra": extra,
+    let mut desc = json!({"id": id, "family": family, "world": world_to_json(w), "query": query_to_json(q), "extra": extra,
                       "impl_short": text.chars().take(200).collect::<String>()});
+    if let Some(sq) = seq {
+        desc["sequence"] = sq;
+        cx.st.count("element_of_a_sequence_on_one_thread");
+    }
     let st = &mut cx.st;
     let fam_class = family.split('#').next().unwrap_or(family);
     st.count(&format!("family:{}", fam_class));
@@ -442,10 +452,14 @@ fn rcase_from_json(c: &Value) -> RCase {
 }
 
 fn add_rcase(cx: &mut Ctx, rc: &RCase, dir: &Path) {
-    let id = cx.st.next_id();
-    let d = dir.join(format!("rw{}", id));
+    let d = dir.join(format!("rw{}", cx.st.next_id()));
     let o = run_real_world(rc, &d);
     let _ = std::fs::remove_dir_all(&d);
+    emit_rcase(cx, rc, o, None);
+}
+
+fn emit_rcase(cx: &mut Ctx, rc: &RCase, o: Outcome, seq: Option<Value>) {
+    let id = cx.st.next_id();
     let text = summary(&rc.q, &o);
     let fr = format!("{} {}", coq_cfg(&rc.cfg), coq_json(&rc.fquery));
     let kq = NumKind::Q;
@@ -466,6 +480,10 @@ fn add_rcase(cx: &mut Ctx, rc: &RCase, dir: &Path) {
     let mut desc = rcase_to_json(rc);
     desc["id"] = json!(id);
     desc["impl_short"] = json!(text.chars().take(200).collect::<String>());
+    if let Some(sq) = seq {
+        desc["sequence"] = sq;
+        cx.st.count("element_of_a_sequence_on_one_service");
+    }
     let st = &mut cx.st;
     let fam_class = rc.family.split('#').next().unwrap_or(&rc.family).to_string();
     st.count(&format!("family:{}", fam_class));
@@ -628,6 +646,217 @@ fn real_world_cases(thorough: bool) -> Vec<RCase> {
     out
 }
 
+// ------------------------------------------------------------------------------------------ sequences
+// Several searches IN A ROW on one thread (the same SearchInstance while the world stays the same) / several queries on
+// ONE frontier service.  Every answer is judged for its own query alone: it must be what that query gets by itself.
+
+/// runs the searches one after the other on ONE thread; the instance is reused while the world does not change
+fn run_plain_sequence(items: &[(World, Query)]) -> Vec<Outcome> {
+    let its: Vec<(World, Query)> = items.to_vec();
+    let n = its.len();
+    let (tx, rx) = std::sync::mpsc::channel();
+    std::thread::spawn(move || {
+        let mut out = vec![];
+        let mut cur: Option<(String, routee_compass_core::algorithm::search::search_instance::SearchInstance)> = None;
+        for (w, q) in its.iter() {
+            let key = world_to_json(w).to_string();
+            if cur.as_ref().map(|c| c.0 != key).unwrap_or(true) {
+                cur = match catch({
+                    let w = w.clone();
+                    move || build_instance(&w)
+                }) {
+                    Ok(si) => Some((key, si)),
+                    Err(_) => None,
+                };
+            }
+            let o = match &cur {
+                None => Outcome::status_only("Panic"),
+                Some((_, si)) => catch(std::panic::AssertUnwindSafe(|| run_on_instance(si, q))).unwrap_or_else(|_| Outcome::status_only("Panic")),
+            };
+            out.push(o);
+        }
+        let _ = tx.send(out);
+    });
+    match rx.recv_timeout(std::time::Duration::from_millis(WATCHDOG_MS * n as u64)) {
+        Ok(o) => o,
+        Err(_) => vec![Outcome::status_only("Hang"); n],
+    }
+}
+
+fn plain_seq_json(items: &[(World, Query)], index: usize) -> Value {
+    json!({"kind": "plain", "index": index,
+           "items": items.iter().map(|(w, q)| json!({"world": world_to_json(w), "query": query_to_json(q)})).collect::<Vec<_>>()})
+}
+
+fn add_plain_sequence(cx: &mut Ctx, family: &str, items: &[(World, Query)], only: Option<usize>) {
+    let outs = run_plain_sequence(items);
+    let shape: Vec<String> = outs.iter().map(|o| o.status.clone()).collect();
+    for (i, ((w, q), o)) in items.iter().zip(outs.into_iter()).enumerate() {
+        if only.map(|k| k != i).unwrap_or(false) {
+            continue;
+        }
+        if i > 0 {
+            cx.st.count(&format!("sequence_previous_status:{}", shape[i - 1]));
+        }
+        emit_case(cx, &format!("{}#{}of{}", family, i + 1, items.len()), w, q, o, json!({"statuses_of_the_sequence": shape}), Some(plain_seq_json(items, i)));
+    }
+}
+
+/// ONE loaded graph, ONE frontier service; per element its own frontier model (service.build(fquery)) and search
+fn run_real_sequence(base: &RCase, items: &[(Query, Value)], dir: &Path) -> Vec<Outcome> {
+    let b = base.clone();
+    let its: Vec<(Query, Value)> = items.to_vec();
+    let n = its.len();
+    let d = dir.to_path_buf();
+    let (tx, rx) = std::sync::mpsc::channel();
+    std::thread::spawn(move || {
+        let fail = |s: &str| vec![Outcome::status_only(s); n];
+        let r = catch(std::panic::AssertUnwindSafe(|| {
+            std::fs::create_dir_all(&d).unwrap();
+            let vfile = d.join("vertices.csv");
+            let efile = d.join("edges.csv");
+            let mut vb = String::from("vertex_id,x,y\n");
+            for v in 0..b.w.n {
+                vb.push_str(&format!("{},{},{}\n", v, v as f64 * 0.01, 0.0));
+            }
+            std::fs::write(&vfile, vb).unwrap();
+            let mut eb = String::from("edge_id,src_vertex_id,dst_vertex_id,distance\n");
+            for (i, (x, y)) in b.w.edges.iter().enumerate() {
+                eb.push_str(&format!("{},{},{},{:?}\n", i, x, y, b.dist[i]));
+            }
+            std::fs::write(&efile, eb).unwrap();
+            let graph = match Graph::from_files(&efile, &vfile, None, None, Some(false)) {
+                Ok(g) => Arc::new(g),
+                Err(_) => return fail("err:load"),
+            };
+            let mut k = 0;
+            let cj = config_json(&b.cfg, &d, &mut k);
+            let service = match CompassAppBuilder::default().build_frontier_model_service(&cj) {
+                Ok(s) => s,
+                Err(_) => return fail("err:build"),
+            };
+            let mut si = build_instance(&b.w);
+            si.directed_graph = graph;
+            let mut out = vec![];
+            for (q, fq) in its.iter() {
+                let o = match service.build(fq, Arc::new(StateModel::empty())) {
+                    Err(_) => Outcome::status_only("err:build"),
+                    Ok(m) => {
+                        si.frontier_model = m;
+                        catch(std::panic::AssertUnwindSafe(|| run_on_instance(&si, q))).unwrap_or_else(|_| Outcome::status_only("Panic"))
+                    }
+                };
+                out.push(o);
+            }
+            out
+        }))
+        .unwrap_or_else(|_| fail("Panic"));
+        let _ = tx.send(r);
+    });
+    match rx.recv_timeout(std::time::Duration::from_millis(WATCHDOG_MS * n as u64)) {
+        Ok(o) => o,
+        Err(_) => vec![Outcome::status_only("Hang"); n],
+    }
+}
+
+fn add_real_sequence(cx: &mut Ctx, base: &RCase, items: &[(Query, Value)], dir: &Path, only: Option<usize>) {
+    let d = dir.join(format!("rwseq{}", cx.st.next_id()));
+    let outs = run_real_sequence(base, items, &d);
+    let _ = std::fs::remove_dir_all(&d);
+    let shape: Vec<String> = outs.iter().map(|o| o.status.clone()).collect();
+    for (i, ((q, fq), o)) in items.iter().zip(outs.into_iter()).enumerate() {
+        if only.map(|k| k != i).unwrap_or(false) {
+            continue;
+        }
+        let mut rc = base.clone();
+        rc.family = format!("{}#{}of{}", base.family, i + 1, items.len());
+        rc.q = q.clone();
+        rc.fquery = fq.clone();
+        let sq = json!({"kind": "real", "index": index_of(i), "statuses_of_the_sequence": shape,
+                        "items": items.iter().map(|(q, fq)| json!({"query": query_to_json(q), "fquery": enc(fq), "fquery_text": fq.to_string()})).collect::<Vec<_>>()});
+        emit_rcase(cx, &rc, o, Some(sq));
+    }
+}
+fn index_of(i: usize) -> usize {
+    i
+}
+
+/// deterministic sequences on one thread: a failing search (no path / unknown vertex / terminated) and then searches
+/// over the same vertices
+fn plain_sequences() -> Vec<(String, Vec<(World, Query)>)> {
+    let mut out = vec![];
+    for alg in [Alg::Dijkstra, Alg::AStar(Some(1.0))] {
+        for dir in [Dir::Forward, Dir::Reverse] {
+            let mk = |n: usize, es: &[(usize, usize)], cs: &[f64], forbid: &[usize]| {
+                let es2: Vec<(usize, usize)> = es.iter().map(|(a, b)| if dir == Dir::Reverse { (*b, *a) } else { (*a, *b) }).collect();
+                let mut w = World::new(n, es2, cs.to_vec());
+                w.forbid = forbid.to_vec();
+                if alg != Alg::Dijkstra {
+                    w.h = (0..n).map(|v| 0.25 * (v as f64 + 1.0)).collect();
+                }
+                w
+            };
+            let rings = mk(6, &[(0, 1), (1, 2), (2, 0), (3, 4), (4, 5), (5, 3)], &[1.0, 2.0, 3.5, 1.5, 2.5, 3.25], &[]);
+            let bridge = mk(4, &[(0, 1), (1, 2), (2, 3), (0, 2)], &[1.0, 2.0, 4.0, 7.5], &[2]);
+            let mut limited = rings.clone();
+            limited.term = Term::Iter(1);
+            let v = |s: usize, t: Option<usize>| vq(alg, dir, s, t);
+            let e = |s: usize, t: Option<usize>| eq(alg, dir, s, t);
+            let r = |q: Query| (rings.clone(), q);
+            out.push(("sequence_nopath_then_reachable".to_string(), vec![r(v(0, Some(4))), r(v(0, Some(2)))]));
+            out.push(("sequence_nopath_then_tree".to_string(), vec![r(v(0, Some(4))), r(v(0, None))]));
+            out.push(("sequence_unknown_vertex_then_reachable".to_string(), vec![r(v(7, Some(1))), r(v(0, Some(2))), r(v(0, None))]));
+            out.push(("sequence_four".to_string(), vec![r(v(0, Some(4))), r(v(1, Some(5))), r(v(2, Some(1))), r(v(1, None))]));
+            out.push(("sequence_edge_oriented".to_string(), vec![r(e(0, Some(3))), r(e(0, Some(2))), r(e(0, None))]));
+            out.push(("sequence_terminated_then_reachable".to_string(), vec![(limited.clone(), v(0, Some(2))), r(v(0, Some(2))), r(v(0, None))]));
+            out.push(("sequence_all_successful".to_string(), vec![r(v(0, Some(2))), r(v(1, Some(0))), r(v(0, None))]));
+            out.push(("sequence_forbidden_bridge".to_string(), vec![(bridge.clone(), v(0, Some(3))), (bridge.clone(), v(0, None)), (bridge.clone(), v(0, Some(2)))]));
+            out.push(("sequence_other_network_failed".to_string(), vec![(bridge.clone(), v(0, Some(3))), r(v(0, Some(2))), r(v(0, None))]));
+        }
+    }
+    out
+}
+
+/// sequences of queries with DIFFERENT vehicles on one vehicle-restriction service (4 m bridge / 10 ton bridge as the
+/// only connector): van then truck, truck then van, ...
+fn real_sequences() -> Vec<(RCase, Vec<(Query, Value)>)> {
+    let mut out = vec![];
+    let vehicle = |h: Value, wgt: Value| json!({"vehicle_parameters": {"height": h, "width": [2.5, "meters"], "total_length": [12.0, "meters"], "trailer_length": [8.0, "meters"], "total_weight": wgt, "number_of_axles": 2}});
+    let van = vehicle(json!([8.2, "feet"]), json!([3500.0, "kg"]));
+    let truck = vehicle(json!([4.5, "meters"]), json!([36000.0, "kg"]));
+    let cfgs: Vec<(&str, Cfg, Option<Value>)> = vec![
+        ("height_4m", Cfg::Vehicle { rows: vec![(2, "maximum_height".into(), 4.0, "meters".into())] }, None),
+        ("weight_10tons", Cfg::Vehicle { rows: vec![(2, "maximum_total_weight".into(), 10.0, "tons".into())] }, None),
+        ("combined", Cfg::Combined(vec![Cfg::Vehicle { rows: vec![(2, "maximum_height".into(), 4.0, "meters".into())] }, Cfg::RoadClass { lookup: vec![1, 1, 2, 1, 1, 1] }]), Some(json!([1, 2]))),
+    ];
+    for (ci, (tag, cfg, classes)) in cfgs.iter().enumerate() {
+        for (oi, order) in [vec![&van, &truck], vec![&truck, &van], vec![&van, &van, &truck], vec![&truck, &truck, &van, &truck]].iter().enumerate() {
+            for (ti, target) in [Some(4), None].iter().enumerate() {
+                let alg = [Alg::Dijkstra, Alg::AStar(Some(1.0))][(ci + oi + ti) % 2];
+                let (mut w, dist) = two_parts(false, [12.5, 0.0, 1e-3][(ci + oi) % 3]);
+                if alg != Alg::Dijkstra {
+                    w.h = vec![3.0, 2.5, 1.0, 0.5, 0.0, 0.0];
+                }
+                let q = Query { alg, dir: Dir::Forward, orient: Orient::Vertex, source: 0, target: *target, query_wf: None };
+                let items: Vec<(Query, Value)> = order
+                    .iter()
+                    .map(|v| {
+                        let mut fq = (**v).clone();
+                        if let Some(c) = classes {
+                            fq["road_classes"] = c.clone();
+                        }
+                        (q.clone(), fq)
+                    })
+                    .collect();
+                let names: Vec<&str> = order.iter().map(|v| if std::ptr::eq(*v, &van) { "van" } else { "truck" }).collect();
+                let base = RCase { family: format!("real_world_sequence_{}:{}", tag, names.join("_")), w, dist, q: q.clone(), cfg: cfg.clone(), fquery: json!({}) };
+                out.push((base, items));
+            }
+        }
+    }
+    out
+}
+
 fn rand_costs(rng: &mut Rng, m: usize) -> Vec<f64> {
     if rng.chance(2, 3) {
         gen_costs(rng, m, CostFamily::TieFree)
@@ -758,6 +987,23 @@ fn main() {
         cx.st.full = true;
         let v: serde_json::Value = serde_json::from_str(&std::fs::read_to_string(p).unwrap()).unwrap();
         let case = &v["case"];
+        if !case["sequence"].is_null() {
+            // an element of a sequence: re-run the whole sequence, report that element
+            let sq = &case["sequence"];
+            let index = sq["index"].as_u64().unwrap_or(0) as usize;
+            if sq["kind"] == "real" {
+                let base = rcase_from_json(case);
+                let items: Vec<(Query, Value)> = sq["items"].as_array().unwrap().iter().map(|it| (query_from_json(&it["query"]), dec(&it["fquery"]))).collect();
+                let mut b = base.clone();
+                b.family = base.family.split('#').next().unwrap_or("replay").to_string();
+                add_real_sequence(&mut cx, &b, &items, &a.out, Some(index));
+            } else {
+                let items: Vec<(World, Query)> = sq["items"].as_array().unwrap().iter().map(|it| (world_from_json(&it["world"]), query_from_json(&it["query"]))).collect();
+                add_plain_sequence(&mut cx, "replay", &items, Some(index));
+            }
+            cx.st.finish();
+            std::process::exit(0);
+        }
         if !case["cfg"].is_null() {
             let rc = rcase_from_json(case);
             add_rcase(&mut cx, &rc, &a.out);
@@ -783,6 +1029,38 @@ fn main() {
     }
     for rc in real_world_cases(thorough) {
         add_rcase(&mut cx, &rc, &a.out);
+    }
+    for (name, items) in plain_sequences() {
+        add_plain_sequence(&mut cx, &name, &items, None);
+    }
+    for (base, items) in real_sequences() {
+        add_real_sequence(&mut cx, &base, &items, &a.out, None);
+    }
+    // random sequences: three searches on one thread over one random graph, the first towards an unreachable
+    // destination when there is one
+    for _ in 0..(if thorough { 300 } else { 25 }) {
+        let mut r = rng.fork();
+        let (n, edges, _flags) = gen_graph(&mut r);
+        let cost = rand_costs(&mut r, edges.len());
+        let mut w = World::new(n, edges, cost);
+        for e in 0..w.edges.len() {
+            if r.chance(1, 5) {
+                w.forbid.push(e);
+            }
+        }
+        let mut items: Vec<(World, Query)> = vec![];
+        for k in 0..3 {
+            let (mut q, _) = gen_query5(&mut r, &mut w);
+            if k == 0 && q.orient == Orient::Vertex && q.dir == Dir::Forward {
+                // aim the first search at a vertex the origin cannot reach (frontier ignored), if there is one
+                let reach = reachable(&w, q.dir, q.source);
+                if let Some(t) = (0..w.n).find(|v| !reach[*v]) {
+                    q.target = Some(t);
+                }
+            }
+            items.push((w.clone(), q));
+        }
+        add_plain_sequence(&mut cx, "sequence_random", &items, None);
     }
     for (name, w, q) in boundary_cases() {
         if in_class(&w) {
